@@ -74,8 +74,7 @@ def run_proofs(cases, tag, timeout=3000):
             for c in sh:
                 f.write(json.dumps(c) + "\n")
         op = os.path.join(scratch, "rec%d.ndjson" % i)
-        p = subprocess.Popen([C.NVH, "proofs", cp, op, os.path.join(scratch, "db%d" % i)],
-                             stdout=subprocess.PIPE, stderr=subprocess.PIPE, text=True, errors="replace")
+        p = C.Proc([C.NVH, "proofs", cp, op, os.path.join(scratch, "db%d" % i)], os.path.join(scratch, "log%d" % i))
         procs.append((p, op))
     recs = []
     hangs = []
